@@ -27,6 +27,7 @@ EXPLANATION = (
     "R3: the fatal cause has one guarded writer and is recorded before the closer runs. Decides the bounding and "
     "classification structure; actual completion instants and hangs inside third-party awaits are not decided."
     ' Added: building a connection error cannot fail (no raising lookup in the constructors and helpers); a write failure reaches the reporting handler as a class it catches; error conversions may sit in a function or around its only call.'
+    ' Also: awaits of callback-completed futures are bounded by timers that only act on a pending future; the interruption sentinel stays outside the connection-error hierarchy.'
 )
 ASSUMPTIONS = [
     "asyncio.timeout / loop.call_at / asyncio.wait honour their deadlines",
